@@ -97,4 +97,49 @@ RecLenChainCoversBlock(d, g, inl) ==
 \* used slots other than "." / ".." as a set of <<name id, inode, file_type>>, and their number
 LiveSlots(d) == UNION {{<<d[j][k][5], d[j][k][1], d[j][k][4]>> : k \in {x \in 1..Len(d[j]) : d[j][x][1] # 0 /\ d[j][x][5] >= 0}} : j \in 1..Len(d)}
 LiveCount(d) == LET F[j \in 0..Len(d)] == IF j = 0 THEN 0 ELSE F[j - 1] + Cardinality({x \in 1..Len(d[j]) : d[j][x][1] # 0 /\ d[j][x][5] >= 0}) IN F[Len(d)]
+
+\* ---------------------------------------------------------------- classes of transitions (edges of the transition graph)
+\* What link_proc / unlink_proc do depends on where the entry sits and on what its neighbours are.  Every transition is
+\* classified (see spec/Edge_DirBlock.tla, which enumerates the classes that occur, and Trace_Dir.tla, which checks that a
+\* replayed step is of the class it was catalogued under).  dd = layout before the operation, n = name id, aft = kind of
+\* the previous operation, r = result of LinkExpand.
+Off(b, i) == SumRl(SubSeq(b, 1, i - 1))
+\* block and slot of the used entry carrying name id n (first match in iteration order)
+BlkOf(dd, n) == CHOOSE j \in 1..Len(dd) : (\E x \in 1..Len(dd[j]) : dd[j][x][1] # 0 /\ dd[j][x][5] = n)
+                                          /\ \A y \in 1..(j - 1) : ~\E x \in 1..Len(dd[y]) : dd[y][x][1] # 0 /\ dd[y][x][5] = n
+SlotOf(b, n) == CHOOSE x \in 1..Len(b) : b[x][1] # 0 /\ b[x][5] = n /\ \A y \in 1..(x - 1) : ~(b[y][1] # 0 /\ b[y][5] = n)
+PosClass(b, i) == IF i = 1 THEN "head" ELSE IF i = Len(b) THEN "tail" ELSE "mid"
+PrevClass(b, i) == IF i = 1 THEN "none" ELSE
+                   LET p == b[i - 1] IN
+                   IF p[1] = 0 THEN "unused"
+                   ELSE IF p[5] < 0 THEN (IF p[3] > RL(p[2]) THEN "dotslack" ELSE "dots")
+                   ELSE IF p[3] > RL(p[2]) THEN "slack" ELSE "live"
+NextClass(b, i) == IF i = Len(b) THEN "none" ELSE IF b[i + 1][1] = 0 THEN "unused" ELSE "live"
+BlkClass(j) == IF j = 1 THEN "first" ELSE "later"
+
+DelEdge(dd, n, aft) ==
+   LET j == BlkOf(dd, n)  b == dd[j]  i == SlotOf(b, n) IN
+   [op |-> "del", blk |-> BlkClass(j), pos |-> PosClass(b, i), prev |-> PrevClass(b, i), next |-> NextClass(b, i),
+    self |-> IF b[i][3] > RL(b[i][2]) THEN "slack" ELSE "tight", how |-> "", sweep |-> 0, after |-> aft]
+
+\* slot of the old block b that covers byte offset o
+Cover(b, o) == CHOOSE m \in 1..Len(b) : Off(b, m) <= o /\ o < Off(b, m) + b[m][3]
+InsEdge(dd, wasinl, r, n, aft) ==
+   LET j == BlkOf(r.d, n)  nb == r.d[j]  i == SlotOf(nb, n) IN
+   IF r.exp = 1
+   THEN [op |-> "ins", blk |-> BlkClass(j), pos |-> PosClass(nb, i), prev |-> PrevClass(nb, i), next |-> "none", self |-> "",
+         how |-> IF wasinl THEN "convert" ELSE "expand", sweep |-> 0, after |-> aft]
+   ELSE LET ob == dd[j]
+            o == Off(nb, i)
+            m == Cover(ob, o)
+            reuse == Off(ob, m) = o
+            \* everything in front of the landing slot, in every block: did the pass change it?
+            swept == \/ \E y \in 1..(j - 1) : r.d[y] # dd[y]
+                     \/ (reuse /\ SubSeq(nb, 1, i - 1) # SubSeq(ob, 1, m - 1))
+                     \/ (~reuse /\ SubSeq(nb, 1, i - 2) # SubSeq(ob, 1, m - 1))
+        IN [op |-> "ins", blk |-> BlkClass(j), pos |-> PosClass(ob, m), prev |-> IF reuse THEN PrevClass(ob, m) ELSE "self",
+            next |-> NextClass(ob, m), self |-> "",
+            how |-> IF reuse THEN (IF nb[i][3] > ob[m][3] THEN "reuse+absorb" ELSE "reuse")
+                    ELSE (IF nb[i][3] > ob[m][3] - RL(ob[m][2]) THEN "split+absorb" ELSE "split"),
+            sweep |-> IF swept THEN 1 ELSE 0, after |-> aft]
 =============================================================================
